@@ -113,6 +113,24 @@ func (e *enc) evalSpec(x SExpr, env *Env) SVal {
 			env2.bound[v] = SVal{t: qn, sort: s}
 			decls = append(decls, fmt.Sprintf("(%s %s)", qn, s))
 		}
+		// Change of variable for quantification over slice elements: when the body indexes a
+		// fixed slice S directly with the bound variable i, quantify over the absolute position
+		// j = soff(S)+i instead, so that the element address (elem (sarr S) j) contains no
+		// arithmetic and E-matching can use it as a trigger. (Exact: i <-> j is a bijection on Int.)
+		for i, v := range n.vars {
+			if specSort(n.sorts[i]) != "Int" {
+				continue
+			}
+			if sx := findIndexedSlice(n.body, v, n.vars); sx != nil {
+				func() {
+					defer func() { recover() }()
+					sv := e.evalSpec(sx, env)
+					if sv.sort == "Slice" {
+						env2.bound[v] = SVal{t: fmt.Sprintf("(- q_%s (soff %s))", v, sv.t), sort: "Int"}
+					}
+				}()
+			}
+		}
 		body := e.evalSpec(n.body, &env2)
 		q := "forall"
 		if !n.forall {
@@ -345,7 +363,11 @@ func (e *enc) indexVal(v, i SVal, env *Env) SVal {
 		if et == nil {
 			env.fail("index of slice with unknown element type")
 		}
-		addr := e.mkElem(fmt.Sprintf("(sarr %s)", v.t), fmt.Sprintf("(+ (soff %s) %s)", v.t, i.t))
+		idx := fmt.Sprintf("(+ (soff %s) %s)", v.t, i.t)
+		if suf := fmt.Sprintf(" (soff %s))", v.t); strings.HasPrefix(i.t, "(- q_") && strings.HasSuffix(i.t, suf) {
+			idx = strings.TrimSuffix(strings.TrimPrefix(i.t, "(- "), suf) // absolute position (see SQuant)
+		}
+		addr := e.mkElem(fmt.Sprintf("(sarr %s)", v.t), idx)
 		return SVal{t: e.loadValue(env.st, addr, et), typ: et, sort: sortOf(et)}
 	case "Str":
 		return SVal{t: fmt.Sprintf("(strat %s %s)", v.t, i.t), sort: "Int"}
@@ -561,4 +583,93 @@ func (e *enc) mapLen(st *State, mt *types.Map, m string) string {
 	t := fmt.Sprintf("(%s (select %s %s))", fn, e.get(st, d, e.mapCellSort(d)), m)
 	e.assertOnce(fmt.Sprintf("(>= %s 0)", t))
 	return t
+}
+
+// findIndexedSlice looks for a sub-expression X[v] where X mentions none of the quantified
+// variables; it returns X.
+func findIndexedSlice(x SExpr, v string, bound []string) SExpr {
+	mentions := func(y SExpr) bool {
+		found := false
+		var walk func(z SExpr)
+		walk = func(z SExpr) {
+			switch n := z.(type) {
+			case *SIdent:
+				for _, b := range bound {
+					if n.name == b {
+						found = true
+					}
+				}
+			case *SSel:
+				walk(n.x)
+			case *SIndex:
+				walk(n.x)
+				walk(n.i)
+			case *SSlice:
+				walk(n.x)
+				if n.lo != nil {
+					walk(n.lo)
+				}
+				if n.hi != nil {
+					walk(n.hi)
+				}
+			case *SCall:
+				for _, a := range n.args {
+					walk(a)
+				}
+			case *SUn:
+				walk(n.x)
+			case *SBin:
+				walk(n.x)
+				walk(n.y)
+			case *SOld:
+				walk(n.x)
+			case *SQuant:
+				walk(n.body)
+			}
+		}
+		walk(y)
+		return found
+	}
+	var res SExpr
+	var walk func(z SExpr)
+	walk = func(z SExpr) {
+		if res != nil {
+			return
+		}
+		switch n := z.(type) {
+		case *SIndex:
+			if id, ok := n.i.(*SIdent); ok && id.name == v && !mentions(n.x) {
+				if _, isOld := n.x.(*SOld); !isOld {
+					res = n.x
+					return
+				}
+			}
+			walk(n.x)
+			walk(n.i)
+		case *SSel:
+			walk(n.x)
+		case *SSlice:
+			walk(n.x)
+		case *SCall:
+			for _, a := range n.args {
+				walk(a)
+			}
+		case *SUn:
+			walk(n.x)
+		case *SBin:
+			walk(n.x)
+			walk(n.y)
+		case *SOld:
+			// state differs inside old(): do not pick from there
+		case *SQuant:
+			for _, b := range n.vars {
+				if b == v {
+					return
+				}
+			}
+			walk(n.body)
+		}
+	}
+	walk(x)
+	return res
 }
